@@ -8,6 +8,6 @@ import json,sys
 sid,prop,need=sys.argv[1:4]; checks=sys.argv[4:] or [prop]
 d=f"/verif/seeded/{sid}"
 conf=json.load(open(d+"/confirm.json"))
-json.dump({"id":sid,"property":prop,"source":"fresh sub-agent given only the property text and a scratch worktree (second round: told to stay away from the area of the first seed)","needs":need,"confirmed":conf.get("confirmed"),"ran":conf.get("ran"),"caught_by":checks},open(d+"/meta.json","w"),indent=1)
+json.dump({"id":sid,"property":prop,"source":"fresh sub-agent given only the property text and a scratch worktree (told to stay away from the functions and mechanisms of the earlier seeds for its property)","needs":need,"confirmed":conf.get("confirmed"),"ran":conf.get("ran"),"caught_by":checks},open(d+"/meta.json","w"),indent=1)
 PY
 /verif/bin/vcheck selftest $ID 2>&1 | grep SELFTEST
